@@ -141,7 +141,7 @@ def gen_scenario(r, master_types):
     return {'kex': kex, 'keys': keys, 'openssh': openssh, 'plan': plan, 'style': style, 'M': M}
 
 
-def run_audit(sc, extra=('--skip-rate-test',), hook=None):
+def run_audit(sc, extra=('--skip-rate-test',), hook=None, targets_file=False):
     ip = '10.19.0.1'
     banner = b'SSH-2.0-OpenSSH_8.9p1' if sc['openssh'] else b'SSH-2.0-dropbear_2022.83'
     payload = fn.kexinit(sc['kex'], sc['keys'], ['aes256-ctr'], ['hmac-sha2-256'])
@@ -158,10 +158,21 @@ def run_audit(sc, extra=('--skip-rate-test',), hook=None):
         return orig_rate(out, aconf, kex, max_time, max_connections, concurrent_sockets)
     DHEat.run = run_spy
     DHEat.dh_rate_test = staticmethod(rate_spy)
+    path = None
     try:
-        code, out = fn.run_main(['-n'] + list(extra) + [ip], net)
+        if targets_file:
+            import os
+            import tempfile
+            fd, path = tempfile.mkstemp(prefix='verif_targets_')
+            os.write(fd, (ip + '\n').encode())
+            os.close(fd)
+            code, out = fn.run_main(['-n'] + list(extra) + ['-T', path, '--threads', '1'], net)
+        else:
+            code, out = fn.run_main(['-n'] + list(extra) + [ip], net)
     finally:
         DHEat.run, DHEat.dh_rate_test = orig_run, staticmethod(orig_rate)
+        if path:
+            os.unlink(path)
     return code, out, net, calls
 
 
@@ -402,6 +413,18 @@ def run(ctx):
             fail('intrusive_feature_entered', {'scenario': sc, 'args': ['--skip-rate-test']}, calls, 'no rate test and no DHEat with --skip-rate-test')
         lines.append(audit_line(sc))
         expect.append((log, sc))
+    # the same audits named in a targets file (-T): the options of the command line reach the per-target configuration — with
+    # --skip-rate-test no rate check is entered and the footprint is the single-target one (seed C19-11)
+    for sc in fixed[:5] + scs[:ctx.scale(8, 60)]:
+        code, out, net, calls = run_audit(sc, targets_file=True)
+        log_t = conn_log(net)
+        cov.add(('targets-file', tuple(sc['kex']), tuple(sc['keys']), tuple(sc['plan'])), True, tags=['targets-file-mode'])
+        if calls:
+            fail('intrusive_feature_entered', {'scenario': sc, 'args': ['--skip-rate-test', '-T', '<file with this target>']}, calls,
+                 'no rate test and no DHEat with --skip-rate-test, also for targets read from a file')
+        ref = conn_log(run_audit(sc)[2])
+        if log_t != ref:
+            fail('footprint_differs_in_targets_file_mode', {'scenario': sc, 'args': ['--skip-rate-test', '-T', '<file with this target>']}, log_t[:12], ref[:12])
     model = ctx.driver(lines) if ctx.driver_ok else []
     for line, m, (log, sc) in zip(lines, model, expect):
         got = m.get('ok')
